@@ -3,6 +3,7 @@ import os
 
 from nvlib import engine as E
 from nvlib.check import Prop
+from props import c06_extract as T
 
 NSLOT, NOBJ, NVAR, NCALL, NSENT = 10, 4, 4, 4, 4
 NEFUN = 20
@@ -58,11 +59,12 @@ class Gen:
                    ("aset", 10), ("aget", 6), ("mset", 8), ("mdel", 4), ("newobj", 4), ("setvar", 6), ("getvar", 4),
                    ("dest", 2), ("cleanup", 2), ("drop", 1), ("call", 5), ("rmcall", 2), ("sweep", 3), ("sent", 4),
                    ("rmsent", 2), ("newfun", 4), ("fill", 3), ("inp", 4), ("input", 3), ("deadcall", 3)]
+        choices += [("newmstr", 4), ("sappend", 4), ("sjoin", 3), ("sadd", 3), ("schar", 4)]
         if m == "unit":
-            choices += [("newstr", 6), ("newmstr", 3), ("push", 6), ("pushr", 3), ("pop", 6), ("popto", 3), ("oref", 1),
+            choices += [("newstr", 6), ("push", 6), ("pushr", 3), ("pop", 6), ("popto", 3), ("oref", 1),
                         ("clones", 1), ("unclone", 1)]
         else:
-            choices += [("err", 4), ("efun", 10)]
+            choices += [("err", 4), ("efun", 10), ("srange", 4)]
         k = r.weighted(choices)
         S = self.slots
         if k == "newarr":
@@ -79,7 +81,7 @@ class Gen:
             self.emit("newbuf %d %d" % (d, r.range(1, 9)))
         elif k in ("newstr", "newmstr"):
             d = r.below(NSLOT)
-            S[d] = self.new("str")
+            S[d] = self.new("str", 5)
             self.emit("%s %d c06s%d" % (k, d, r.below(4)))
         elif k == "assign":
             d, s = r.below(NSLOT), self.pick_slot(("arr", "map", "cls", "buf", "str", "fn"))
@@ -233,6 +235,8 @@ class Gen:
         elif k == "fill":
             d, t = r.below(NSLOT), self.pick_slot()
             n = r.weighted([(2, 3), (7, 3), (64, 2), (300, 1)])
+            if n > 7 and S[t] is not None and S[t].kind in ("arr", "cls", "map", "unknown"):
+                n = 7       # no wide fan-out over containers: copy() / sprintf("%O") of the result would be exponential
             c = self.new("arr", n)
             for i in range(min(n, 8)):
                 c.items[i] = S[t]
@@ -240,6 +244,37 @@ class Gen:
                 c.items = {i: S[t] for i in range(n)}
             S[d] = c
             self.emit("fill %d %d %d" % (d, n, t))
+        elif k in ("sappend", "sjoin", "sadd", "schar", "srange"):
+            # strings are values: the target gets a new string, every other holder keeps its text
+            d = self.pick_slot(("str",))
+            s2 = self.pick_slot(("str",))
+            cur = S[d]
+            if k == "sappend":
+                if cur is not None and cur.kind == "str":
+                    S[d] = self.new("str", cur.size + 1)
+                self.emit("sappend %d %d" % (d, r.range(1, 9)))
+            elif k == "sjoin":
+                if cur is not None and cur.kind == "str" and S[s2] is not None and S[s2].kind == "str":
+                    S[d] = self.new("str", cur.size + S[s2].size)
+                self.emit("sjoin %d %d" % (d, s2))
+            elif k == "sadd":
+                dd = r.below(NSLOT)
+                if S[s2] is not None and S[s2].kind == "str":
+                    S[dd] = self.new("str", S[s2].size + 1)
+                self.emit("sadd %d %d %d" % (dd, s2, r.range(1, 9)))
+            elif k == "schar":
+                n = cur.size if cur is not None and cur.kind == "str" else 3
+                if cur is not None and cur.kind == "str":
+                    S[d] = self.new("str", cur.size)
+                self.emit("schar %d %d %s" % (d, r.below(max(1, n)), r.choice("xyzw")))
+            else:
+                n = cur.size if cur is not None and cur.kind == "str" else 3
+                i = r.below(max(1, n))
+                j = r.range(i, max(i, n - 1))
+                w = r.choice(["Q", "QQ", "QQQ", "R" * (j - i + 1)])
+                if cur is not None and cur.kind == "str":
+                    S[d] = self.new("str", cur.size - (j - i + 1) + len(w))
+                self.emit("srange %d %d %d %s" % (d, i, j, w))
         elif k == "inp":
             ao = self.alive_objs()
             o = r.choice(ao) if ao and r.chance(9, 10) else r.below(NOBJ)
@@ -337,7 +372,8 @@ class C06(Prop):
     lean_modules = ["NV.C06.Props", "NV.C06.Witness"]
     theorems = ["NV.C06.widths_agree", "NV.C06.ref_eq_holders", "NV.C06.no_free_while_held",
                 "NV.C06.primitives_preserve_invariant", "NV.C06.string_never_freed_while_held", "NV.C06.string_cells_never_freed_while_held",
-                "NV.C06.string_saturates", "NV.C06.counters_exact", "NV.C06.balanced_history_returns_to_baseline",
+                "NV.C06.string_saturates", "NV.C06.no_inplace_modification_while_shared", "NV.C06.extendInPlace_sole",
+                "NV.C06.joinInPlace_sole", "NV.C06.unlink_inplace_sole", "NV.C06.add_never_inplace", "NV.C06.sole_of_ref_one", "NV.C06.counters_exact", "NV.C06.balanced_history_returns_to_baseline",
                 "NV.C06.run_ok", "NV.C06.mstep_ok", "NV.C06.Fits_of_le", "NV.C06.Fits_of_size"]
     witness_theorems = ["NV.C06.wrap_uaf", "NV.C06.wrap_uaf_state", "NV.C06.cycle_leaks",
                         "NV.C06.object_cycle_cut_by_destruct", "NV.C06.prog_wrap_uaf"]
@@ -376,7 +412,8 @@ class C06(Prop):
     rule = ("cases = corpus + known-finding inputs + boundary list + seeded random histories (about 40 operations + "
             "tear-down) over 10 value slots, 4 objects, 4 pending call_outs, 4 sentences: allocation of arrays / mappings / "
             "classes / buffers / strings / function pointers, assignment, element / node / variable stores and loads, "
-            "stack pushes and pops, call_outs whose callbacks keep their argument, add_action and input_to carry-over "
+            "string modification on one holder (+= number, += string, + on a copy, s[i] = c, s[i..j] = w) with the text "
+            "seen by every variable compared (strings are values), stack pushes and pops, call_outs whose callbacks keep their argument, add_action and input_to carry-over "
             "arguments, owners destructed while call_outs / sentences / an input_to are pending (dropped by the sweep, "
             "refused by the input), "
             "destruct + deferred cleanup, errors thrown under live frames, 20 efun/operator groups with results dropped; "
@@ -394,13 +431,18 @@ class C06(Prop):
                    "tot_alloc_sentence is a high-water mark (sentences are recycled through a free list) and is not compared",
                    "mapping hash order: the model releases the nodes of a mapping in insertion order"]
 
+    def gen_extra(self, ctx, bdir):
+        """the in-place decisions of the string primitives, regenerated from the macro bodies (gcc -E)"""
+        text, self.decisions = T.generate(bdir)
+        return text
+
     def prepare(self, ctx):
         self.exe = E.compile_harness("c06", [os.path.join(E.VERIF, "harness/c06/c06.c")])
         self.conf = E.make_mudlib(ctx.rundir)
 
     def run_impl(self, ctx, cases):
         # generous per-case limit: the heavy cases (65 537 clones, 70 000 holders) must not depend on machine speed
-        return E.run_harness(self.exe, self.conf, cases, ctx.rundir, timeout=3600, args=("--timeout", "900"))
+        return E.run_harness(self.exe, self.conf, cases, ctx.rundir, timeout=3600, args=("--timeout", "300"))
 
     def canon(self, lines):
         out = []
@@ -465,6 +507,20 @@ class C06(Prop):
             mk("input_to-delivered-" + mode, mode,
                ["newobj 1", "newarr 0 2", "newfun 1 1 0", "inp 1 0 1", "inp 1 1 1", "free 0", "free 1", "input", "input",
                 "inp 1 0 0", "dest 1", "input", "cleanup", "drop 1"])
+        for mode in ("unit", "lpc"):
+            for name, last in (("65535", "fill 5 9533 0"), ("65536", "fill 5 9534 0"), ("70000", "fill 5 13998 0")):
+                head = ["newmstr 0 abc"] + big + [last, "assign 6 0"]      # holders = 2 + 56000 + n
+                mods = ["sappend 6 7", "assign 6 0", "sjoin 6 0", "sadd 7 0 5", "assign 8 0", "schar 8 0 z", "aget 9 1 0",
+                        "assign 8 0", "schar 8 2 y"]
+                if mode == "lpc":
+                    mods += ["assign 8 0", "srange 8 0 1 QQQ", "assign 8 0", "srange 8 1 2 RR", "aget 9 2 7"]
+                mk("string-%s-holders-modify-%s" % (name, mode), mode, head + mods + rel + ["free 6", "free 7", "free 8", "free 9"])
+            mk("string-values-" + mode, mode, ["newmstr 0 ab", "sappend 0 1", "assign 1 0", "sappend 1 2", "sjoin 0 1", "sjoin 1 1",
+                                               "sadd 2 0 3", "schar 2 0 x", "assign 3 2", "schar 3 1 y", "newarr 4 2", "aset 4 0 3",
+                                               "schar 3 0 w", "aget 5 4 0", "free 0", "free 1", "free 2", "free 3", "free 4", "free 5"])
+            # arrays are references: one holder's element store is seen by all (sanity, 32-bit counters)
+            mk("array-65537-holders-store-" + mode, mode, ["newarr 0 2"] + big + ["fill 5 9535 0", "assign 6 0", "newmap 7",
+                                                                                  "aset 6 0 7", "aget 8 0 0", "free 7", "free 8", "free 6"] + rel)
         mk("string-saturation", "unit", ["newstr 0 c06sat"] + big + ["fill 5 9534 0", "assign 6 0", "newstr 7 c06sat"]
            + rel + ["free 6", "free 7"])
         mk("malloc-string-shared", "unit", ["newmstr 0 c06m", "assign 1 0", "push 0", "newarr 2 2", "aset 2 0 0",
